@@ -416,7 +416,9 @@ def check_listing(hash_name, metas, kind):
     for i, md in enumerate(metas):
         d = dict(md)
         hv = ref.md5(f"{hash_name}{i}".encode())
-        d[field] = None  # the hash-name field of the metadata is owned by the hash
+        # the hash-name field of the metadata is owned by the hash: absent, or (odd entries) holding another
+        # value that must not win over the entry's hash
+        d[field] = None if i % 2 == 0 else ref.md5(f"meta-own-{i}".encode())
         key = ("d", f"f{i}é") if i % 2 else (f"f{i}",)
         t.add(key, Meta(**d), HashInfo(hash_name, hv))
         pm = proj_meta(Meta(**d))
